@@ -60,6 +60,8 @@ class C10(core.Check):
         for camel, dash in PROPS:
             for v in VALUES:
                 ops += [['styleDot', camel, v], ['setProperty', dash, v], ['setStyle', dash, v], ['styleDot', dash, v] if '-' not in dash else ['setStyles', [[dash, v]]]]
+                if camel != dash:
+                    ops += [['setStyle', camel, v], ['setStyles', [[camel, v]]]]          # camelCase names through the element-level setters
         for s in STRINGS:
             ops += [['styleAssign', s], ['setAttribute', 'style', s], ['setitem', 'style', s]]
         ops += [['removeAttribute', 'style'], ['delitem', 'style'], ['styleCopy', COPY_SRC]]
@@ -78,6 +80,14 @@ class C10(core.Check):
                 for sd in (seeds[:2] if k == 1 else seeds[:1]):
                     cases.append(dict(origin=sd[0], attrs=sd[1], ops=[list(o) for o in combo]))
                     n_ex += 1
+        # a whole-style assignment that holds the same declarations as the current mapping in another order must replace the order
+        for how in ('styleAssign', 'setAttribute', 'setitem'):
+            for a, b in (('float', 'color'), ('display', 'padding-top'), ('color', 'font-weight')):
+                asg = '%s: X; %s: Y' % (b, a)
+                op3 = [how, asg] if how == 'styleAssign' else [how, 'style', asg]
+                for sd in seeds[:3]:
+                    cases.append(dict(origin=sd[0], attrs=sd[1], ops=[['setStyle', a, 'Y'], ['setStyle', b, 'X'], ['removeAttribute', 'id'], op3, ['read', 'startTag']]))
+                    cases.append(dict(origin='direct', attrs=[['style', '%s: Y; %s: X' % (a, b)]], ops=[op3]))
         nsamp = 1500 if self.tier == 'quick' else 60000
         for _ in range(nsamp):
             sd = rng.choice(seeds)
@@ -129,11 +139,13 @@ class C10(core.Check):
                 return '%s raised %s' % (op, res)
             if k == 'styleDot':
                 put(camel2dash(op[1]), op[2])
-            elif k in ('setProperty', 'setStyle'):
+            elif k == 'setProperty':
                 put(op[1], op[2])
+            elif k == 'setStyle':
+                put(camel2dash(op[1]), op[2])
             elif k == 'setStyles':
                 for n, v in op[1]:
-                    put(n, v)
+                    put(camel2dash(n), v)
             elif k == 'styleAssign' or (k in ('setAttribute', 'setitem') and op[1].lower() == 'style'):
                 sd[:] = parse_style(op[-1])
             elif k in ('removeAttribute', 'delitem') and op[1].lower() == 'style':
